@@ -800,6 +800,18 @@ class DestHandler:
                 self._params.positive_ack_params.ack_counter + 1
                 >= self._params.remote_cfg.positive_ack_timer_expiration_limit
             ):
+                if self._params.completion_disposition == CompletionDisposition.CANCELED:
+                    # CFDP standard 4.11.2.3.3: Any fault declared in the course of transferring
+                    # the Finished (cancel) PDU must result in abandonment of the transaction.
+                    assert self._params.transaction_id is not None
+                    # We still call the abandonment callback to ensure the fault is logged.
+                    self.cfg.default_fault_handlers.abandoned_cb(
+                        self._params.transaction_id,
+                        self._params.finished_params.condition_code,
+                        self._params.fp.progress,
+                    )
+                    self._abandon_transaction()
+                    return None
                 self._declare_fault(ConditionCode.POSITIVE_ACK_LIMIT_REACHED)
                 # This is a bit of a hack: We want the transfer completion and the corresponding
                 # Finished PDU to be re-sent in the same FSM cycle. However, the call
